@@ -249,3 +249,27 @@ PROPS["C08"] = dict(
     level_note="Trusted: rounding bound 16*eps*(|y|^T P|x| + |x|^T R|y|) (weights are non-negative so P|x| = |P||x|).",
     assumptions=["coarse grids are obtained by keeping every second node (coarseningGrid)"],
 )
+
+PROPS["C09"] = dict(
+    harness="c09_fmg", flavour="rel",
+    quick=dict(workers=8, cases=1500, min_nontrivial=300),
+    thorough=dict(workers=16, cases=60000, min_nontrivial=3000, budget_s=3000),
+    rule="Two parts. interp (2/3): fine/coarse level pairs (nr odd 9..41, ntheta%4==0 8..64, 1% >10000 nodes), half "
+         "midpoint-nested half free spacing, independent splits, threads 1,2,5,16; an arbitrary coarse vector is compared at "
+         "every fine node with a long double tensor cubic Lagrange model on the real node coordinates (angles unwrapped "
+         "around the node), linear-in-r on the two lines next to the boundaries; random polynomials p(r)q(theta) of degree "
+         "<=3 and constants checked directly under several branch cuts; all 12+ node classes counted. startup (1/3): "
+         "through the API, shipped smooth triples (no Culham), grids 9x16..65x128, L from maxLevels in {-1,2,3,4,5}, FMG "
+         "cycle V/W/F, FMG iterations 0..3, extrapolation 0/1, give/take, maxIterations=0, histories fresh / reused after a "
+         "different solve / work vectors polluted through the friend accessor; oracle: equality with the harness's nested "
+         "iteration (own vectors, reference cycles), equality with a fresh object, start error <= 30x discretisation "
+         "error. Non-trivial: non-uniform spacing (interp) or a non-fresh history (startup). Distinct: grid/split/threads/"
+         "vector kind resp. hash of the option record + history.",
+    technique="property-based testing (rapidcheck); model-based oracle (long double Lagrange interpolation), polynomial exactness, differential against a reference nested iteration, metamorphic history independence",
+    level_text="The interpolation is compared node by node with an independent Lagrange model and with exact polynomial "
+               "values; the start-up is compared with a reference nested iteration written with fresh vectors and with a "
+               "fresh solver object, for generated level counts, cycle types and object histories. Exploration.",
+    level_note="Trusted: harness/common/ref_cycle.h (uses the solver's own level operators, validated by C03-C08), the "
+               "Lagrange model in c09_fmg.cpp. Non-midpoint nodes of the linear fallback rule are finding F6b (excluded, counted).",
+    assumptions=["the friend accessor (GMGPOLAR_VERIF) only reads levels_/interpolation_ and overwrites work vectors"],
+)
